@@ -27,14 +27,22 @@ K_PDET = 'C07:stale-after-commit:parent-detached-by-expire'
 K_RBDET = 'C07:stale-after-rollback:tx-instance-detached-by-expire'
 
 META = {
-    'extractors': [],
+    'extractors': ['pytx'],
     'technique': ('Lean 4 proofs over an executable model of Transaction/CacheFactory/instance life cycle '
                   '(step-wise isolation and commit/rollback theorems for every state, history induction for the '
                   'coherence invariant) + differential correspondence on interleaved histories + raw-observer oracle'),
     'level_text': ('C07_isolation*, C07_commit_visible, C07_rollback_erases, C07_obsolete_refuses* hold for every model state / '
                    'history; C07_commit_no_stale and the instance part of rollback are FALSE of the code (four replayed '
                    'witnesses) and proved as _partial under the decidable per-step hypothesis `good`.'),
-    'level_note': ('Trusted: Lean kernel; hand-written model Model/Tx.lean tied by the sampling correspondence; SQLite '
+    'level_note': ('Trusted: Lean kernel; hand-written model Model/Tx.lean tied by the sampling correspondence AND, for '
+                   'Transaction.commit/rollback/begin/_makeObsolete/assertActive/_SO_delete/__del__, by translation: '
+                   'vlib/extractors/pytx.py translates the method bodies from the AST on every run into PyTx programs '
+                   '(Model/PyTx.lean); C07_translated_*_eq_model prove by symbolic execution (nested loops by induction over '
+                   'the lists allIDs() returned) that running them from the image of any model state gives opCommit / opRollback / '
+                   'opBegin / the _SO_delete part of opDestroy, under ConnWF of the connection whose instances are expired and the '
+                   'interface assumptions stated in Model/TxX.lean (low-level COMMIT/ROLLBACK, allIDs() = any list with exactly '
+                   'the ids of Conn.inAllIDs, tryGet/tryGetByName = Conn.tryGet, inst.expire() = opExpire, signals/debug without '
+                   'effect, _setAutoCommit / releaseConnection(explicit=True) / getConnection on the pooled connection); SQLite '
                    'locking/visibility semantics, weakref/GC and cull timing are modelled (explicit drop/weaken/purge steps '
                    'observed from the real run), not verified.'),
     'rule': ('case = (doCache, history of create/get/read/set/destroy/expire/select/drop/cull on either side and '
